@@ -63,7 +63,10 @@ class FSM:
         return False
 
     def archiving_trigger(self):
+        # the real FSM leaves `running`: is_pipeline_active() is False from
+        # here until the archive (and whatever follows it) is over
         W['outs'].append([7])
+        self.active = False
 
 
 fsm = FSM()
